@@ -14,9 +14,14 @@
                             list DataFrame.description returns for it (lookup of each column BY NAME);
      col_in / declared / schema_of / frame_desc   the columns of a frame as declared (name, type-name
                             string), what each constructor yields, the schema of those that did not
-                            raise, and every description entry paired with from_name(its type code). *)
+                            raise, and every description entry paired with from_name(its type code);
+     sess / op / step / run a session on ONE schema object: its current columns plus the process-wide
+                            DataFrame.column_names cache (frame object, names it saw); operations describe
+                            through frame f / re-declare a column in place / append / pop / assign a column's
+                            attributes in place; [current_view st] = the schema as it is now, rendered;
+                            [not_cached f st] / [cached_current f st] / [in_place o st] as defined in the model. *)
 From Coq Require Import List NArith ZArith Bool String.
-From Orso Require Import Base.C06_Defs Gen.C06_Types Gen.C06_Names Gen.C06_Env Gen.C06_Regex Model.C06 Proofs.C06 Proofs.C06_Frame.
+From Orso Require Import Base.C06_Defs Gen.C06_Types Gen.C06_Names Gen.C06_Env Gen.C06_Regex Model.C06 Proofs.C06 Proofs.C06_Frame Proofs.C06_Session.
 Import ListNotations.
 Open Scope N_scope.
 
@@ -203,6 +208,58 @@ Theorem C06_declared_frame :
 Proof. exact declared_frame. Qed.
 Print Assumptions C06_declared_frame.
 
+(* ---------------- sessions on one mutable schema object (round 3) ---------------- *)
+
+(* Whatever state a session has reached, .description through a frame object the column_names
+   cache does not remember (a new DataFrame on the schema, or any frame but the last one
+   described) answers the schema as it is NOW: no dependence on earlier declarations, earlier
+   calls or the operations in between. *)
+Theorem C06_session_describe_fresh :
+  forall (st0 : sess) (ops : list op) (f : nat),
+  let st := fst (run st0 ops) in
+  not_cached f st -> snd (step st (ODescribe f)) = current_view st.
+Proof. exact run_describe_fresh. Qed.
+Print Assumptions C06_session_describe_fresh.
+
+(* The same frame object again: once it has answered the current view, re-declaring a column in
+   place under its name (schema.columns[i] = FlatColumn(same name, other type)) or assigning a
+   column object's type attributes does not leave anything stale - the next .description
+   through that very frame answers the re-declared schema. *)
+Theorem C06_session_redeclared_in_place :
+  forall (st : sess) (f : nat) (o : op),
+  cached_current f st -> in_place o st ->
+  snd (step (fst (step st o)) (ODescribe f)) = current_view (fst (step st o)).
+Proof. exact describe_after_in_place. Qed.
+Print Assumptions C06_session_redeclared_in_place.
+
+(* ... and a describe that answered the current view leaves the frame in that situation *)
+Theorem C06_session_describe_establishes :
+  forall (st : sess) (f : nat),
+  not_cached f st \/ cached_current f st ->
+  cached_current f (fst (step st (ODescribe f))) /\ s_schema (fst (step st (ODescribe f))) = s_schema st.
+Proof. exact step_describe_establishes. Qed.
+Print Assumptions C06_session_describe_establishes.
+
+(* End to end after ANY history: if column k of the schema now carries a well-formed proper
+   description (column names distinct), the entry .description reports at position k - through
+   a fresh frame, or through the cached frame while the names are unchanged - has that column's
+   own current type code, which resolves back to its type / precision / scale / element type. *)
+Theorem C06_session_type_code_current :
+  forall (st0 : sess) (ops : list op) (f k : nat) (n : str) (d : descr),
+  let st := fst (run st0 ops) in
+  not_cached f st \/ cached_current f st ->
+  NoDup (map fst (s_schema st)) -> nth_error (s_schema st) k = Some (n, column_of d) ->
+  wfb d = true -> proper d = true ->
+  exists l d',
+    snd (step st (ODescribe f)) = SDesc (s_schema st) (Ok l) /\
+    List.length l = List.length (s_schema st) /\
+    nth_error l k = Some ((n, type_code (column_of d), desc_prec (column_of d), desc_scale (column_of d)), Ok d') /\
+    d_ty d' = d_ty (column_of d) /\
+    d_prec d' = desc_prec (column_of d) /\ d_scale d' = desc_scale (column_of d) /\
+    (forall e, d_elt (column_of d) = Some e -> d_elt d' = Some e).
+Proof. exact session_type_code_current. Qed.
+Print Assumptions C06_session_type_code_current.
+
 (* ---------------- non-vacuity and worked instances ---------------- *)
 
 (* the hypotheses are satisfiable by non-trivial values, and letter-case variants exist *)
@@ -282,5 +339,33 @@ Example C06_nonvacuous_frames :
 Proof.
   cbv zeta. split.
   { repeat constructor; vm_compute; intuition discriminate. }
+  repeat split; vm_compute; reflexivity.
+Qed.
+
+(* sessions: describe, re-declare amount and tags in place, describe through the SAME frame and
+   through a new one, pop and re-add label with another type, describe: always the current codes.
+   And what the premises exclude (faithful to the implementation's process-wide column_names
+   cache): the same frame described again after the NAMES changed still lists the old names - an
+   appended column is missing, a renamed one makes .description fail (None.type: AttributeError). *)
+Example C06_nonvacuous_sessions :
+  let col n s := ((txt n, txt s, [], []) : col_in) in
+  let codes o := match o with SDesc _ (Ok l) => Some (map (fun x => e_code (fst x)) l) | _ => None end in
+  let st0 := start [col "amount" "DECIMAL(10,2)"; col "tags" "ARRAY<INTEGER>"; col "label" "VARCHAR[12]"] in
+  map codes (snd (run st0 [ODescribe 0; OReplace 0 (col "amount" "decimal(38,12)"); OReplace 1 (col "tags" "Array<Varchar>");
+                           ODescribe 0; ODescribe 1; OPop (txt "label"); OAppend (col "label" "DECIMAL(5,5)"); ODescribe 2])) =
+    [Some [txt "DECIMAL(10,2)"; txt "ARRAY<INTEGER>"; txt "VARCHAR"]; None; None;
+     Some [txt "DECIMAL(38,12)"; txt "ARRAY<VARCHAR>"; txt "VARCHAR"];
+     Some [txt "DECIMAL(38,12)"; txt "ARRAY<VARCHAR>"; txt "VARCHAR"]; None; None;
+     Some [txt "DECIMAL(38,12)"; txt "ARRAY<VARCHAR>"; txt "DECIMAL(5,5)"]] /\
+  in_place (OReplace 0 (col "amount" "decimal(38,12)")) (fst (step st0 (ODescribe 0))) /\
+  cached_current 0%nat (fst (step st0 (ODescribe 0))) /\
+  map codes (snd (run st0 [ODescribe 0; OAppend (col "extra" "DATE"); ODescribe 0])) =
+    [Some [txt "DECIMAL(10,2)"; txt "ARRAY<INTEGER>"; txt "VARCHAR"]; None;
+     Some [txt "DECIMAL(10,2)"; txt "ARRAY<INTEGER>"; txt "VARCHAR"]] /\
+  snd (step (fst (run st0 [ODescribe 0; OReplace 0 (col "total" "BLOB")])) (ODescribe 0)) =
+    SDesc (s_schema (fst (run st0 [ODescribe 0; OReplace 0 (col "total" "BLOB")]))) (Raise OtherExn).
+Proof.
+  cbv zeta. split; [vm_compute; reflexivity|]. split.
+  { intros nc H. vm_compute in H. injection H as H. subst nc. vm_compute. reflexivity. }
   repeat split; vm_compute; reflexivity.
 Qed.
